@@ -132,6 +132,17 @@ def _borderline(rng):
                      'LAYERING_PRMS': {'gmm_kwargs': {'delta_mul_gain': 1.0}}}}
 
 
+def _asym_split(rng):
+    """Thin deck + fluffy deck 280-420 ft above it, kept in one group: whether the mixture
+    components are re-merged depends on where the base level sits inside the fluffy deck, i.e. on
+    BASE_LVL_HEIGHT_PERC / BASE_LVL_LOOKBACK_PERC at decision time."""
+    h = rng.choice([900, 1500, 2400])
+    gap = rng.randint(280, 420)
+    decks = [(h, rng.choice([8, 15]), 0.9), (h + gap, rng.choice([70, 90, 110]), 0.9),
+             (h + 7000, 40, 0.4)]
+    return {'rows': decks_rows(rng, 2, rng.randint(28, 42), decks), 'prms': {}}
+
+
 def _no_hit(rng):
     return {'rows': decks_rows(rng, rng.choice([1, 2, 3]), rng.randint(5, 30), []), 'prms': {}}
 
@@ -205,10 +216,22 @@ def _demo_like(rng):
 RECIPES = {
     'single': _single, 'two-far': _two_far, 'merge': _merge, 'split': _split,
     'merge+split': _merge_split, 'rng-sensitive': _rng_sensitive, 'borderline': _borderline,
+    'asym-split': _asym_split,
     'no-hit': _no_hit,
     'single-hit': _single_hit, 'sparse': _sparse, 'vv': _vv, 'msa-crop': _msa_crop,
     'multi-hit': _multi_hit, 'many-sets': _many_sets, 'demo-like': _demo_like,
 }
+
+
+def twin_scene(rng, scene: dict) -> dict:
+    """Distinct data of the *same shape*: same ceilometers, time stamps, hit types and row
+    labels as `scene`, other heights (shifted and stretched). State keyed by the shape of the
+    data (row labels, counts, positions) instead of the data then collides."""
+    shift = rng.choice([350, 900, 2100])
+    stretch = rng.choice([1.0, 1.3, 0.8])
+    rows = [[r[0], r[1], None if r[2] is None else _r(r[2] * stretch + shift, 1), r[3]]
+            for r in scene['rows']]
+    return {'cls': scene['cls'] + '~twin', 'rows': rows, 'prms': dict(scene.get('prms') or {})}
 
 
 def gen_scene(rng, cls: str) -> dict:
